@@ -31,4 +31,19 @@ def uidCmd (args : List String) : String :=
   | ["flow"] => "FLOW install_eq=true clone_eq=true"   -- `C17.scope_uid_is_allocated`, `C17.uid_in_install`; clone is structural
   | _ => "BADARG"
 
+/-- `STOP <run> <handle> <point> <k>`: what the theorems of C18 predict for every stop point: the run returns
+`Ok` (C18.stop_returns_ok / run_ignores_after_stop), the transport is closed once after the flows are dropped,
+at most one `recv` is in flight after the clear, no callback after the return; a message that fails to decode
+while no stop was requested gives `Err` (C18.result_ok_iff_stopped) -/
+def stopCmd (args : List String) : String :=
+  match args with
+  | [run, handle, point, _k] =>
+    if !(run = "inline" ∨ run = "spawn") ∨ !(handle = "caller" ∨ handle = "internal") ∨
+       (handle = "internal" ∧ run ≠ "spawn") then "BADARG"
+    else if point = "badmsg" then "RES ERR closes=1 recv_after_clear_le1=1 late_cb=0 latency_ok=1 strong=1"
+    else if point = "pre" ∨ point = "mid" ∨ point = "blocked" ∨ point = "flood" then
+      "RES OK closes=1 recv_after_clear_le1=1 late_cb=0 latency_ok=1 strong=1"
+    else "BADARG"
+  | _ => "BADARG"
+
 end Portus.Driver
